@@ -256,12 +256,15 @@ pub fn index_from_model(j: &J) -> Result<Index, String> {
     match j["k"].as_str() {
         Some("f") => Ok(Index::Map(uncps(&j["name"])?)),
         Some("i") => Ok(Index::Vec(j["i"].as_u64().ok_or("index i")? as usize)),
+        Some("I") => Ok(Index::Vec(usize::try_from(unlimbs(&j["big"])?).map_err(|_| "index beyond usize")?)),
         _ => Err(format!("bad index {j}")),
     }
 }
 pub fn index_to_model(i: &Index) -> J {
     match i {
         Index::Map(n) => json!({"k": "f", "name": cps(n)}),
+        // indices of 2^30 and more as limbs, like the specification (its native integers are 32 bit)
+        Index::Vec(i) if *i >= (1usize << 30) => json!({"k": "I", "big": limbs(*i as u128)}),
         Index::Vec(i) => json!({"k": "i", "i": i}),
     }
 }
